@@ -84,6 +84,7 @@ QueryWhy(P, st) ==
   ELSE IF A # {} /\ A \subseteq P.mem[s] /\ (~NoDup(q.down) \/ SetOf(q.down) # Down(P, s, A)) THEN "downstream"
   ELSE IF ~NoDup(q.iter_f) \/ SetOf(q.iter_f) # IterateJobs(U, P, s, FALSE) THEN "iterate-jobs"
   ELSE IF ~NoDup(q.iter_t) \/ SetOf(q.iter_t) # IterateJobs(U, P, s, TRUE) THEN "iterate-jobs-schedulers"
+  ELSE IF ~NoDup(q.iter_x) \/ SetOf(q.iter_x) # IterateJobs(U, P, s, TRUE) THEN "iterate-jobs-interleaved"
   ELSE ""
 
 StepWhy(X, st) ==
